@@ -1102,6 +1102,47 @@ package server
 //@     invariant datasetIncluded <==> (len(from.Datasets) == 0 || (exists k int :: 0 <= k && k <= $i && from.Datasets[k] == datasetID))
 
 // ---------------------------------------------------------------------------
+// C03: limit accounting and continuation list of a multi-start-point query: the limit handed to each start point is what
+// the earlier start points left over; a start point that is not queried (limit used up) is carried over unchanged, and the
+// continuation of a queried start point is carried over; both in start-point order, nothing else enters the list
+
+//@ assumed (*Store).getRelatedEntitiesAtTime
+//@   pure
+//@   ensures foreign(ret0.Relations)
+
+//@ unit (*Store).GetManyRelatedEntitiesAtTime
+//@   prop C03
+//@   ghost posG intmap
+//@   ghost queriedG intset = emptyset()
+//@   ghost contG intset = emptyset()
+//@   requires s != nil && limit >= 0
+//@   ensures [every-start-point-not-queried-is-carried-over] ret1 == nil ==> (forall k int :: 0 <= k && k < len(from) && !has(queriedG, k) ==> 0 <= posG[k] && posG[k] < len(ret0.Cont) && ret0.Cont[posG[k]] == from[k])
+//@   ensures [every-continuation-of-a-queried-start-point-is-carried-over] ret1 == nil ==> (forall k int :: has(contG, k) ==> 0 <= posG[k] && posG[k] < len(ret0.Cont) && ret0.Cont[posG[k]] != nil)
+//@   ensures [carried-over-in-start-point-order] ret1 == nil ==> (forall k int, m int :: 0 <= k && k < m && m < len(from) && (!has(queriedG, k) || has(contG, k)) && (!has(queriedG, m) || has(contG, m)) ==> posG[k] < posG[m])
+//@   ensures [nothing-else-in-the-continuation-list] ret1 == nil ==> len(ret0.Cont) <= len(from)
+//@   at call getRelatedEntitiesAtTime#1 before
+//@     assert [start-point-queried-with-what-the-earlier-ones-left-over] limit == (limit0 == 0 ? 0 : limit0 - len(result.Relations)) && (limit0 == 0 || limit > 0)
+//@     ghost queriedG := add(queriedG, $i1 + 1)
+//@   at call append#1 before
+//@     ghost contG := add(contG, $i1 + 1)
+//@     ghost posG := put(posG, $i1 + 1, len(relatedFroms))
+//@   at call append#3 before
+//@     assert [skipped-only-when-the-limit-is-used-up] limit0 > 0 && len(result.Relations) >= limit0
+//@     ghost posG := put(posG, $i1 + 1, len(relatedFroms))
+//@   loop 1
+//@     invariant -1 <= $i && $i < len(from)
+//@     invariant unlimited <==> limit0 == 0
+//@     invariant limit == (limit0 == 0 ? 0 : (limit0 - len(result.Relations) > 0 ? limit0 - len(result.Relations) : 0))
+//@     invariant forall k int :: has(queriedG, k) ==> 0 <= k && k <= $i
+//@     invariant forall k int :: has(contG, k) ==> has(queriedG, k)
+//@     invariant forall k int :: 0 <= k && k <= $i && !has(queriedG, k) ==> 0 <= posG[k] && posG[k] < len(relatedFroms) && relatedFroms[posG[k]] == from[k]
+//@     invariant forall k int :: has(contG, k) ==> 0 <= posG[k] && posG[k] < len(relatedFroms) && relatedFroms[posG[k]] != nil
+//@     invariant forall k int, m int :: 0 <= k && k < m && m <= $i && (!has(queriedG, k) || has(contG, k)) && (!has(queriedG, m) || has(contG, m)) ==> posG[k] < posG[m]
+//@     invariant forall k int :: 0 <= k && k <= $i && (!has(queriedG, k) || has(contG, k)) ==> posG[k] < len(relatedFroms)
+//@     invariant len(relatedFroms) <= $i + 1
+//@     invariant (len(relatedFroms) == 0 && cap(relatedFroms) == 0) || !foreign(relatedFroms)
+
+// ---------------------------------------------------------------------------
 // C14: Open reloads every registry from the key its mutators persist it under
 
 //@ assumed (*Store).readValue
